@@ -216,6 +216,32 @@ pub fn run(ctx: &mut Ctx, replay: Option<&[String]>) {
     for (root, name) in [(Node::Col(0), "c0"), (Node::Row(0), "r0"), (Node::Col(1), "c1")] {
         ctx.emit(&format!("c11 {} {} inf", sm(&d5), name), &one(&d5, root, None), true, &["corpus-pendant-path-on-4-cycle"]);
     }
+    // a root of weight 65537 and more: the shortest cycle through it leaves through neighbours number i and i + 65536 of its adjacency
+    // list (labels of the branches of the search must not be 16 bits wide).  The graph is far beyond the list-based model; the local
+    // girth and the BFS distances are known by construction: row 0 holds columns 0 .. w-1, a path of `extra` further columns joins
+    // column i and column i + 65536 through rows 1 .. extra+1, so the only cycle has length 4 + 2 extra and passes through row 0.
+    for v in 0..ctx.scale(3, 12) {
+        let w = 65537 + rng.below(200);
+        let extra = v % 3;
+        let i = rng.below(w - 65536);
+        let mut h = SparseMatrix::new(extra + 2, w + extra);
+        for c in 0..w { h.insert(0, c); }
+        // rows 1..=extra+1: row 1 has column i, last row has column i+65536, consecutive rows share a fresh column w+j
+        h.insert(1, i);
+        for j in 0..extra { h.insert(1 + j, w + j); h.insert(2 + j, w + j); }
+        h.insert(1 + extra, i + 65536);
+        let cyc = 4 + 2 * extra;
+        for (root, name) in [(Node::Row(0), "r0"), (Node::Col(i), "ci"), (Node::Col(i + 65536), "cj"), (Node::Col((i + 1) % 65536), "coff")] {
+            for max in [None, Some(cyc), Some(cyc - 2)] {
+                let h2 = h.clone();
+                let got = guarded(move || match max { Some(m) => h2.girth_at_node_with_max(root, m), None => h2.girth_at_node(root) });
+                let want = if name == "coff" || max == Some(cyc - 2) { None } else { Some(cyc) };
+                let o = match got { Ok(g) => opt_nat(g), Err(_) => "panic".to_string() };
+                ctx.emit(&format!("c11 known {} root-of-weight-{}-cycle-{}-{}-{}", opt_nat(want), w, cyc, name, max.map(|m| m.to_string()).unwrap_or("inf".into())), &o, true,
+                    &["root-of-weight-above-65536"]);
+            }
+        }
+    }
     // wide graphs (hundreds of columns) whose cycles sit far from column 0, behind long acyclic stretches of columns: the global girth must
     // not depend on how the scan over the columns is split up or reduced
     for v in 0..ctx.scale(3, 12) {
